@@ -100,6 +100,9 @@ func (e *env) runSnap(o snapOpts) {
 			if i > 0 && cases[i-1].gs == c.gs && e.rng.Intn(3) == 0 {
 				e.poison(c, cases[i-1])
 			}
+			if e.rng.Intn(4) == 0 {
+				e.neighbours(c)
+			}
 			results[i] = c.runImpl()
 			ops[i] = c.op()
 		}
@@ -180,8 +183,10 @@ func (e *env) poison(c, other *snapCase) {
 	}
 	out := [2]float64{float64(g.minX+size*g.res)/1e10 + 10, float64(g.minY+size*g.res)/1e10 + 10}
 	poly[len(poly)-1][len(poly[len(poly)-1])-1] = out
+	pc.before = nil
 	pc.setPoly(poly)
 	sr := pc.runImpl()
+	c.before = append(c.before, fmt.Sprintf("%v (ignoreOutside=%v)", pc.poly, pc.cfg.IgnoreOutsideGrid))
 	e.res.Dist["snap:preceded-by-an-outside-grid-call"]++
 	want := "panic outside-grid"
 	if pc.cfg.IgnoreOutsideGrid {
@@ -189,6 +194,39 @@ func (e *env) poison(c, other *snapCase) {
 	}
 	if got := sr.String(); got != want {
 		e.snapViolation("outside-grid-rejected", &pc, sr, "expected "+want, "")
+	}
+}
+
+// neighbours: before some cases the same tile matrix set (same ids, same flags) snaps a few triangles that each share one edge with the
+// polygon to come, walked the other way, as adjacent parcels do: what an earlier polygon left behind about a shared edge must not
+// decide how the next polygon is routed along it
+func (e *env) neighbours(c *snapCase) {
+	g := c.grid()
+	size := float64(int64(1) << g.depth)
+	minX, minY := float64(g.minX)/1e10, float64(g.minY)/1e10
+	maxX, maxY := minX+size*float64(g.res)/1e10, minY+size*float64(g.res)/1e10
+	n := 0
+	for _, rg := range c.poly {
+		for i := 0; i+1 <= len(rg) && n < 6; i++ {
+			a, b := rg[i], rg[(i+1)%len(rg)]
+			if a == b || e.rng.Intn(2) == 0 {
+				continue
+			}
+			// the third vertex on the right of a->b (outside a counter-clockwise shell), as far away as the edge is long
+			t := [2]float64{(a[0]+b[0])/2 + (b[1] - a[1]), (a[1]+b[1])/2 - (b[0] - a[0])}
+			if !(t[0] > minX && t[0] < maxX && t[1] > minY && t[1] < maxY) {
+				continue
+			}
+			nc := *c
+			nc.before = nil
+			nc.setPoly(geom.Polygon{{b, a, t}})
+			nc.runImpl()
+			c.before = append(c.before, fmt.Sprint(nc.poly))
+			n++
+		}
+	}
+	if n > 0 {
+		e.res.Dist["snap:preceded-by-neighbours-sharing-an-edge"]++
 	}
 }
 
